@@ -22,7 +22,7 @@ from .common import *  # noqa: F401,F403
 from . import detmodel as D
 from .C02 import T, START, steps_spec, N
 
-TRUSTED = ["helpers that receive neither the detector nor a clock value are deterministic functions of their arguments (memoised uninterpreted results) and may return the same array object for equal arguments (the model must not write into it)",
+TRUSTED = ["helpers that receive neither the detector nor a clock value are deterministic functions of their arguments (memoised uninterpreted results); they hand out the SAME array object for equal arguments exactly when a memoised function (lru_cache / cache) is on their call chain inside pyxel/ (decided from the code per run), otherwise a new array per call (numpy constructors, trusted)",
            "real arithmetic (two schedules agree only up to rounding in binary64)", "astropy Quantity/Unit/constants: values carried exactly, unit conversions multiply by a positive constant of the two units (contracts/quantity.py); np.exp and x ** 1.5 uninterpreted; dark current with shot noise or fixed-pattern noise is outside the property (not deterministic)",
            "load_cropped_and_aligned_image returns the same array for the same file within a run (C20)"]
 G = D.GEN
